@@ -601,6 +601,18 @@ package sam
 //@   ensures [local.c18.error.returned] implies(gErrSeen, result != nil)
 //@ func Variants spawns
 //@   modifies everything
+//@   # C14/C04: the regions are built for the reference the mutations are called against: RegionsFromGenbank gets the length,
+//@   # RegionsFromGFF the text, of Degap(Decode(ref)) - the results of those two (contracted) calls, nothing else
+//@   ghost gDecGb fastaio.FastaRecord = fastaio.FastaRecord{}
+//@   ghost gDegGb fastaio.FastaRecord = fastaio.FastaRecord{}
+//@   ghost gDecGff fastaio.FastaRecord = fastaio.FastaRecord{}
+//@   ghost gDegGff fastaio.FastaRecord = fastaio.FastaRecord{}
+//@   after call:Decode#1: do gDecGb = ret()
+//@   after call:Degap#1: do gDegGb = ret()
+//@   after call:Decode#2: do gDecGff = ret()
+//@   after call:Degap#2: do gDegGff = ret()
+//@   before call:RegionsFromGenbank#1: assert [c14.reference.degapped.gb] arg(1) == len(gDegGb.Seq) && gDecGb.ID == ref.ID
+//@   before call:RegionsFromGFF#1: assert [c14.reference.degapped.gff] arg(1) == gDegGff.Seq && gDecGff.ID == ref.ID
 //@   after if#3: assert [c18.oneref] len(refs) == 1
 //@   before call:ReadEncodeAlignmentToList#1: assert [c11.reference.soft] arg(0) == refIn && arg(1) == false
 //@   # the rest of the orchestration in spawns mode (model and assumptions: see closest.Closest)
